@@ -118,7 +118,7 @@ package shell_operator
 //@   requires [rate-limit-token] hook.lastWaitHook == taskHook && hook.lastWaitErr == nil && taskHook != nil
 //@   requires taskHook.HookController != nil && t != nil && taskHook.Config != nil && (taskHook.Config.Version == "v0" || taskHook.Config.Version == "v1")
 //@   requires [ghost-wf] hook.nProcess >= 0 && !hook.fsExists[""]
-//@   modifies bindingcontext.lastConvIn, bindingcontext.lastConvVersion, bindingcontext.lastConvOut, controller.lastRefreshIn, controller.lastRefreshOut, controller.snapCount, controller.snapOf, hook.fsExists, hook.ctxFileContent, hook.lastJsonOut, hook.lastWritten, hook.nProcess, hook.lastExitErr, hook.nOutputsRead, hook.lastEnviron
+//@   modifies bindingcontext.lastConvIn, bindingcontext.lastConvVersion, bindingcontext.lastConvOut, controller.lastRefreshIn, controller.lastRefreshOut, controller.snapCount, controller.snapOf, hook.fsExists, bindingcontext.lastJsonIn, bindingcontext.lastJsonOut, hook.lastWritten, hook.nProcess, hook.lastExitErr, hook.nOutputsRead, hook.lastEnviron
 //@   modifies hook.nRun, hook.lastRunHook, hook.ranContexts, ranErr, hook.lastWaitHook, hook.lastHookResult, hook.lastHookErr, nSetAdm, lastAdmProp, nSend, lastSendErr, objectpatch.nPatchExec, objectpatch.nExec, objectpatch.execOp, objectpatch.execErr, objectpatch.lastSpecs, objectpatch.lastDecodeErr
 //@   ghostset ranErr := result
 //@   ensures [runs-once]                hook.nRun == old(hook.nRun) + 1 && hook.ranContexts == hookMeta.BindingContext && hook.lastRunHook == taskHook
@@ -422,7 +422,7 @@ package shell_operator
 //@   requires op.HookManager != nil && op.TaskQueues != nil && t != nil
 //@   modifies hook.nRun, hook.lastRunHook, hook.ranContexts, ranErr, nCombine, lastCombine, allMergedAllowFailure, nUpdateMeta, lastMeta, nUnlock, unlockIds, nUnlockAll, hook.lastWaitHook, hook.lastWaitErr, hook.lastHookResult, hook.lastHookErr, nSetAdm, lastAdmProp, nSend, lastSendErr, objectpatch.nPatchExec, objectpatch.nExec, objectpatch.execOp, objectpatch.execErr, objectpatch.lastSpecs, objectpatch.lastDecodeErr, gotMeta, metaEpoch, rate.lastWaitLimiter, rate.lastLimiterErr
 //@   requires [ghost-wf] hook.nProcess >= 0 && !hook.fsExists[""]
-//@   modifies bindingcontext.lastConvIn, bindingcontext.lastConvVersion, bindingcontext.lastConvOut, controller.lastRefreshIn, controller.lastRefreshOut, controller.snapCount, controller.snapOf, hook.fsExists, hook.ctxFileContent, hook.lastJsonOut, hook.lastWritten, hook.nProcess, hook.lastExitErr, hook.nOutputsRead, hook.lastEnviron
+//@   modifies bindingcontext.lastConvIn, bindingcontext.lastConvVersion, bindingcontext.lastConvOut, controller.lastRefreshIn, controller.lastRefreshOut, controller.snapCount, controller.snapOf, hook.fsExists, bindingcontext.lastJsonIn, bindingcontext.lastJsonOut, hook.lastWritten, hook.nProcess, hook.lastExitErr, hook.nOutputsRead, hook.lastEnviron
 //@   modifies seenItems, filterItems, mergedTasks, mergedSeq, lastCombined, nMerged, all(queue.TaskQueue.items), all(queue.TaskQueue.measureActionFn), queue.nMut, allelems(string)
 //@   let ep0 := old(metaEpoch)
 //@   ensures [at-most-one-run]      hook.nRun == old(hook.nRun) || hook.nRun == old(hook.nRun) + 1
